@@ -240,6 +240,23 @@ def St.registerPre (s : St) (c p : Nat) : Bool × St :=
       (true, s4)
   else (true, s1)
 
+/-- `_updateRoot(root)` over a work list of components (preorder), all at once: no other code
+    runs in between.  Fuel = number of components + 1, enough for any forest. -/
+def St.updateRootAll : Nat → List Nat → Nat → St → St
+  | 0, _, _, s => s
+  | _, [], _, s => s
+  | fuel + 1, x :: rest, root, s =>
+    let s1 := s.modComp x fun y => { y with root := root }
+    St.updateRootAll fuel ((s1.comp x).children ++ rest) root s1
+
+/-- the precondition the property puts on `register(c, p)`: `c` is a detached root with no
+    unregistration pending and `p` lies outside `c`'s subtree (`p.root ≠ c`); self-registration
+    (`p = c`) is the degenerate case the code allows.  The model refuses anything else
+    (`Exn.inadmissible`): such histories are outside the quantifier. -/
+def St.admissible (s : St) (c p : Nat) : Bool :=
+  c < s.comps.length && p < s.comps.length &&
+  (p == c || ((s.comp c).parent == c && !(s.comp c).pending && (s.comp p).root != c))
+
 /-- the tail of `register`: `self.fire(registered(self, parent))` -/
 def St.registerFin (s : St) (c : Nat) : St :=
   s.fireTmplEv c { name := Name.registered, arg := c } none 0
